@@ -303,8 +303,24 @@ def reloadStep (st : ReloadSt) (j : Json) : Except String (ReloadSt × String) :
       | some x => let added := x.apps.filter (fun a => !q.apps.contains a)
                   if added.isEmpty then none else some s!"C16.D1 draining queue {q.path} took new applications {added}"
       | none => none))).flatten
+  -- what every parent offers to the scheduling cycle (the real sortQueues) against the model's `offered`: a draining
+  -- child with pending resources is offered like an active one
+  let offeredImpl : List (String × String × List String) := ((jArr (fldD post "parts" (.arr #[]))).toOption.getD #[]).toList.flatMap (fun pj =>
+    let pn := (jStr (fldD pj "name" (.str ""))).toOption.getD ""
+    ((jArr (fldD pj "queues" (.arr #[]))).toOption.getD #[]).toList.filterMap (fun qj =>
+      match qj.getObjVal? "offered" with
+      | .ok o => some (pn, (jStr (fldD qj "path" (.str ""))).toOption.getD "", (jStrList o).toOption.getD [])
+      | .error _ => none))
+  let offeredDiff : Option String := offeredImpl.findSome? (fun (pn, qp, impl) =>
+    match cl.get pn with
+    | none => none
+    | some part =>
+      let m := offered part.tree qp
+      if sortStrs m == sortStrs impl then none
+      else some s!"diff reload.offered [{pn}] {qp} offers model={sortStrs m} impl={sortStrs impl} to the scheduler")
   let finish (st' : ReloadSt) (diff : Option String) (fails : List String) (okTag : String) : ReloadSt × String :=
     let fails := fails ++ inv0 ++ drainClause
+    let diff := match diff with | some d => some d | none => offeredDiff
     match diff, fails.isEmpty with
     | none, true => (st', okTag)
     | some d, true => (st', d)
@@ -466,6 +482,27 @@ def reloadStep (st : ReloadSt) (j : Json) : Except String (ReloadSt × String) :
         else ([], true)
       | _, _ => ([], false)
     let diffs := sub.1.filter (fun s => s.startsWith "diff ")
-    return finish base diffs.head? frame (if sub.2 then "ok" else "ok unmodelled")
+    -- liveness probe: scheduling cycles ran to quiescence on a node with room for everything. A probe ask that is still
+    -- pending although nothing the scheduler looks at stands in its way (application runnable, no back-off, queue and
+    -- user headroom, room on the node) was starved. In a draining leaf / below a draining queue that breaks "existing
+    -- applications keep running" (K1) — judged against the control group: some application of an active leaf got its
+    -- probe ask in the same run. The flips keep their known classes.
+    let probeClauses : List String :=
+      if op != "probe" then [] else
+      let ps := ((jArr (fldD j "probes" (.arr #[]))).toOption.getD #[]).toList
+      let b (pj : Json) (k : String) : Bool := (jBool (fldD pj k (.bool false))).toOption.getD false
+      let sv (pj : Json) (k : String) : String := (jStr (fldD pj k (.str ""))).toOption.getD ""
+      let cycles := (jNat (fldD j "cycles" (.num 0))).toOption.getD 0
+      let control := ps.filter (fun pj => b pj "alloc" && b pj "leaf" && sv pj "qstate" == "Active" && !b pj "ancDraining" && !b pj "ancLeaf")
+      ps.filterMap (fun pj =>
+        let starved := !b pj "alloc" && b pj "pending" && b pj "runnable" && !b pj "backoff" && b pj "qfit" && b pj "ufit" && b pj "nodeRoom" && !b pj "gang"
+        if !starved then none
+        else if !b pj "leaf" then some s!"C16.F1 (probe) {sv pj "app"} sits in the parent queue {sv pj "queue"}: its ask {sv pj "key"} is not allocated within {cycles} cycles"
+        else if b pj "ancLeaf" then some s!"C16.F2 (probe) {sv pj "app"} in {sv pj "queue"} below a leaf: its ask {sv pj "key"} is not allocated within {cycles} cycles"
+        else if sv pj "qstate" == "Draining" || b pj "ancDraining" then
+          (if control.isEmpty then none
+           else some s!"C16.K1 draining-queue-keeps-running: {sv pj "app"} in {sv pj "queue"} ({sv pj "qstate"}{if b pj "ancDraining" then ", below a draining queue" else ""}) has the pending ask {sv pj "key"} that fits the node, its queue and its user, and is not allocated within {cycles} cycles, while {control.map (fun c => sv c "app")} in active leaves were served")
+        else none)
+    return finish base diffs.head? (frame ++ probeClauses) (if sub.2 then "ok" else "ok unmodelled")
 
 end YkDrv
